@@ -74,7 +74,10 @@ pub fn c01_product_spec(tier: &str) -> Spec {
         }
         cur = nxt;
     }
-    let budgets: Vec<usize> = vec![small, 127, 128, 129, mid - 1, mid, mid + 1, mid + small, big - 1, big, big + 1, big + small, 2 * mid];
+    // payload-based budgets, and header-inclusive ones (the planner counts header bytes, so
+    // these end a planned range exactly on an entry boundary inside a block)
+    let hd = s.bs - s.fill;
+    let budgets: Vec<usize> = vec![small, 127, 128, 129, mid - 1, mid, mid + 1, mid + small, big - 1, big, big + 1, big + small, 2 * mid, small + hd, 128 + hd, mid + hd, big + hd, 2 * (mid + hd), mid + small + 2 * hd];
     Spec {
         prop: "C01",
         cfgs: if thorough { vec![strict_fd(), Config::new(Consistency::Strict, Backend::Mmap), Config::new(Consistency::Alo(2), Backend::Fd)] } else { vec![strict_fd()] },
@@ -150,6 +153,8 @@ pub fn c06_boundary_spec(tier: &str) -> Spec {
         vec![ap(s.over), ap(s.fill - 1 - h), ap(0)],
         vec![Op::Batch { t: 0, lens: vec![a, 0] }],
         vec![Op::Batch { t: 0, lens: vec![a, 0, 0] }],
+        // a two-unit block that ends exactly at the end of its file
+        vec![ap(1), Op::Append { t: 1, len: s.half }, ap(s.over)],
     ];
     let mut roots = roots;
     if thorough {
@@ -362,6 +367,21 @@ pub fn spec_for(prop: &str, tier: &str) -> Option<Spec> {
                 Op::Append { t: 0, len: 128 },
             ]);
             roots.push(vec![Op::Batch { t: 0, lens: vec![0, 0, 0, 0, 0, 0, 0, 0, 0] }, Op::Append { t: 0, len: 128 }]);
+            // the consumer took part of the active block, then the writer rotated: the remembered
+            // tail position belongs to a block that is sealed now
+            roots.push(vec![
+                Op::Append { t: 0, len: 200 },
+                Op::Append { t: 0, len: 200 },
+                Op::BatchRead { t: 0, budget: 200, ckpt: true, start: None },
+                Op::Append { t: 0, len: fill },
+            ]);
+            roots.push(vec![
+                Op::Append { t: 0, len: 200 },
+                Op::Append { t: 0, len: 200 },
+                Op::ReadNext { t: 0, ckpt: true },
+                Op::Append { t: 0, len: fill },
+                Op::Append { t: 0, len: 1 },
+            ]);
             // a zero-length entry as the last entry of a sealed block (it ends exactly at the block end / not)
             roots.push(vec![Op::Append { t: 0, len: fill - 256 }, Op::Append { t: 0, len: 0 }, Op::Append { t: 0, len: 1 }]);
             roots.push(vec![Op::Append { t: 0, len: 200 }, Op::Append { t: 0, len: 0 }, Op::Append { t: 0, len: fill }]);
@@ -692,6 +712,10 @@ pub fn spec_for(prop: &str, tier: &str) -> Option<Spec> {
                         af(0),
                         Op::Drain { t: 1 },
                     ],
+                    // a topic whose first entry needs a larger block than the one handed to its
+                    // writer (that block is given up empty at the end of file 1, the two-unit
+                    // block opens file 2), the big block sealed, the rest of file 2 consumed
+                    vec![af(0), af(0), af(0), Op::Append { t: 1, len: s.over }, af(0), af(0), af(0), af(1), Op::Drain { t: 0 }],
                     // file 1 entirely consumed, consumer in the writer's tail in file 2
                     vec![af(0), af(0), af(0), af(0), af(0), Op::Drain { t: 0 }],
                     // three files; file 1 consumed, the consumer inside file 2's sealed blocks
@@ -982,7 +1006,7 @@ pub fn run_check(prop: &str, tier: &str) -> i32 {
             prop, spec.max_depth
         );
         if prop == "C01" {
-            rule.push_str("; plus a product family (per_config keys layouts-x-budgets/<config>): every layout of 2..3 (thorough 4) entries over {10, 128, 0.3 block, 0.73 block} bytes x 13 byte budgets around those sizes, drained by repeated consuming batch reads with that budget (depth 3, thorough 4) and a final drain");
+            rule.push_str("; plus a product family (per_config keys layouts-x-budgets/<config>): every layout of 2..3 (thorough 4) entries over {10, 128, 0.3 block, 0.73 block} bytes x 19 byte budgets around those sizes (payload-based and header-inclusive), drained by repeated consuming batch reads with that budget (depth 3, thorough 4) and a final drain");
         }
         if prop == "C13" {
             rule.push_str("; plus a family (per_config keys equal-file-names/<config>) in which two namespaces hold WAL files of the same name (created in the same wall-clock millisecond by two processes, hooked clock fixed) and are then opened together, depth 2 (thorough 3)");
@@ -991,7 +1015,7 @@ pub fn run_check(prop: &str, tier: &str) -> i32 {
             rule.push_str("; plus a family (per_config keys ten-blocks/<config>) starting from a topic spread over ten blocks in three files, depth 2 (thorough 3)");
         }
         if prop == "C06" {
-            rule.push_str("; plus a block-boundary family (per_config keys block-boundary-layouts/<config>): 12 layouts ending exactly at, one byte before and one byte behind a block boundary (zero-length entry in the last header-sized slot, entries filling a one-unit or two-unit block to the byte, as appends and as batches) x every sequence of up to 2 (thorough 3) reads / appends / reopen / restart, with drain tails before and after a further restart");
+            rule.push_str("; plus a block-boundary family (per_config keys block-boundary-layouts/<config>): 13 layouts ending exactly at, one byte before and one byte behind a block or file boundary (zero-length entry in the last header-sized slot, entries filling a one-unit or two-unit block to the byte, as appends and as batches) x every sequence of up to 2 (thorough 3) reads / appends / reopen / restart, with drain tails before and after a further restart");
         }
         if prop == "C04" {
             rule.push_str("; plus fault enumeration: 3 prefixes x 7 appends/batches (one to nine entries, one to three blocks, file roll-over) x every placement of one (thorough: also every pair of) injected failure(s) at the seams the operation passes (k-th flush, k-th file creation, io_uring submission, negative and short completion of every entry of the batch) x {in-process, restart} tails, each executed on the real engine and stepped through the model that ignores failed appends (per_config keys faults/<config>: placements, executions)");
